@@ -19,6 +19,8 @@ package core
 import (
 	"fmt"
 	"sync"
+
+	"github.com/Comcast/rulio/core/verifhook"
 )
 
 var Complete = &Condition{"complete", "complete"}
@@ -94,6 +96,7 @@ func (w *FindRules) Do(ctx *Context, loc *Location) {
 		}
 	}
 
+	verifhook.Point("events.find.gap")
 	w.Children = make([]*EvalRule, 0, 0)
 	for id, rule := range rs {
 		Log(DEBUG, ctx, "FindRules.Do", "rid", id)
